@@ -113,6 +113,8 @@ def jobs(tier, seed):
         rowkinds.append(dict(rk="list", k=3))
     else:
         out.append(dict(base, ck="none", rk="list", k=3, L=2))       # permutations / repeats of three rows (materialisation of a row-list selection)
+    out.append(dict(base, ck="none", rk="list", k=4, R=4, L=2, B=4))      # four rows, four entries
+    out.append(dict(base, ck="slice", cstep=None, cpres=[(1, 0)], rk="array", k=4, R=4, L=1, B=4))
     # rows only: every presence pattern of the slice bounds
     for rk in rowkinds + [dict(rk="slice", rstep=s) for s in steps]:
         out.append(dict(base, ck="none", **rk))
